@@ -7,7 +7,10 @@ ASSUMPTIONS = ["reference/serde_classes.json states serde's JSON shape for std t
 
 def run(ctx):
     out = []
-    for fs in ctx.featuresets():
+    fsets = ctx.featuresets()
+    if "allimpl" not in fsets:
+        fsets = fsets + ["allimpl"]   # the feature-gated impls (chrono, serde_json, tokio, ..) are only type-checked there
+    for fs in fsets:
         c = ctx.mir(fs)["ts_rs"]
         res = [L.visit_agreement_rule(c, "C12"), L.totality_rule(c, "C12")]
         if fs == "default":
